@@ -119,6 +119,21 @@ pub fn generate(property: &str, seed: u64, tier: Tier) -> Plan {
             }
         }
     }
+    // C18 / C19: accounts with attachments (external file blobs) and several
+    // folders with flags and descriptions; spliced in from an independent stream
+    if matches!(property, "C18" | "C19") {
+        let mut xr = Rng::new(seed).fork("acct.attachments");
+        let n = xr.range(0, 3);
+        for k in 0..n {
+            let at = xr.below(steps.len() as u64 + 1) as usize;
+            steps.insert(at, json!({"op":"xcreate","slot":xr.below(n_slots),"folder":*xr.pick(&[0u64, 4, 4, 5]),"val":900_000 + seed % 1000 * 10 + k,
+                "size":xr.below(5),"label":xr.below(3),"tags":xr.below(8),"fav":false}));
+        }
+        if xr.chance(1, 2) {
+            let at = xr.below(steps.len() as u64 + 1) as usize;
+            steps.insert(at, json!({"op":"xupdate","slot":xr.below(n_slots),"val":950_000 + seed % 1000,"size":xr.below(5),"label":0,"tags":0,"fav":false}));
+        }
+    }
     Plan {
         family: "acct".into(),
         property: property.into(),
@@ -144,6 +159,12 @@ pub async fn execute(plan: Plan, dir: &Path) -> RunOutcome {
         }
     };
     let mut ora = oracles::AcctOracles::new(&prop);
+    ora.seed = plan.seed;
+    if plan.steps.iter().any(|s| jstr(s, "op") == "xcreate") {
+        // see filew.rs: a slow simulated clock keeps age's scrypt calibration
+        // at its probe work factor (external files are passphrase-encrypted)
+        crate::interpose::clock_set_tick(2_000_000_000);
+    }
     ora.begin(&mut dev, &mut rec).await;
     let steps = plan.steps.clone();
     for (idx, s) in steps.iter().enumerate() {
